@@ -21,10 +21,10 @@ POOL = [
     "y ~ x", "y ~ f", "y ~ 0 + f:g + x", "y ~ f*g + poly(x, 2)", "yc ~ x", "yc[v] ~ f + x", "prop(s, n) ~ x + f", "prop(s, 9) ~ x",
     "y ~ 1", "x + f", "y ~ x + (1|g)", "y ~ (x|g)", "y ~ (f|g)", "y ~ (0 + f|g) + (1|h)", "y ~ (x|g:h) + (0 + f:x|h)",
     "y ~ (x|g) + (x|h)", "y ~ x + (bs(x, df=3)|g)", "y ~ f + (f|g) + (x|h)", "y ~ 0 + C(k) + (1|g/h)", "y ~ (1|h) + (f*x|g)",
-    "yc ~ 0 + x + (0 + x|g)", "(x|g)", "y ~ one + x + f", "y ~ x + one + (1|g) + (0 + x|g)", "y ~ x + offset(s) + f", "y ~ offset(2.5) + (1|g)", "y ~ C(fl) + x", "y ~ x + (1|C(fl))", "ylong ~ x + flong", "ylong ~ 0 + x + (flong|g)",  # 'one' has a single level: a term without columns
+    "yc ~ 0 + x + (0 + x|g)", "(x|g)", "x + f + (x|g)", "y ~ 0 + (x|g)", "0 + (f|g)", "y ~ 0 + bs(x, df=4)", "y ~ 0 + bs(x, df=4):f", "y ~ f + poly(x, 3) + (0 + bs(x, df=4)|g)", "y ~ one + x + f", "y ~ x + one + (1|g) + (0 + x|g)", "y ~ x + offset(s) + f", "y ~ offset(2.5) + (1|g)", "y ~ C(fl) + x", "y ~ x + (1|C(fl))", "ylong ~ x + flong", "ylong ~ 0 + x + (flong|g)",  # 'one' has a single level: a term without columns
 ]
-FRAMES = ["sub", "rev", "newg", "newh", "newgh"]
-FRAMES_T = FRAMES + ["one", "dup"]
+FRAMES = ["sub", "rev", "newg", "newh", "newgh", "one"]
+FRAMES_T = FRAMES + ["dup"]
 _DF = None
 
 
@@ -227,9 +227,16 @@ def check_case(case, acc):
             for M in (dm.response, dm.common, dm.group):
                 if M is not None and str(np.asarray(M.design_matrix).shape) not in txt:
                     problems.append(("printing", f"{fn.__name__}(design) does not report the shape {np.asarray(M.design_matrix).shape}"))
+            # each member is reported on its own line, with its own shape; a member the design does not have is not reported
+            for label, M in (("Response:", dm.response), ("Common:", dm.common), ("Group-specific:", dm.group)):
+                lines = [ln for ln in txt.splitlines() if ln.strip().startswith(label)]
+                if M is None and lines:
+                    problems.append(("printing", f"{fn.__name__}(design) has a {label!r} line although the design has no such member"))
+                if M is not None and (len(lines) != 1 or not lines[0].rstrip().endswith(str(np.asarray(M.design_matrix).shape))):
+                    problems.append(("printing", f"{fn.__name__}(design): the {label!r} line {lines} does not report the shape {np.asarray(M.design_matrix).shape}"))
         has_groups = dm.group is not None
         thorough = case.get("tier") == "thorough"
-        frames_here = (FRAMES_T if thorough else FRAMES) if has_groups else (["sub", "rev", "one", "dup"] if thorough else ["sub", "rev"])
+        frames_here = (FRAMES_T if thorough else FRAMES) if has_groups else (["sub", "rev", "one", "dup"] if thorough else ["sub", "rev", "one"])
         direct = {}
         nstates = 0
         for kind, root in roots:
@@ -276,7 +283,7 @@ def check_case(case, acc):
                             if tuple(got) != want:
                                 problems.append(("factors-with-new-levels", f"{what}: factors_with_new_levels {got}, expected {want}"))
                         # the caller changes its frame in place (other values, one row fewer) and evaluates it again from the same parent
-                        if dep == 1 and kind != "response":
+                        if dep == 1 and kind != "response" and len(nd) > 1:
                             nd2 = new_frame(fk)
                             try:
                                 obj.evaluate_new_data(nd2)
